@@ -1,8 +1,10 @@
 package c11
 
 import (
+	"bytes"
 	"fmt"
 	"math/big"
+	"strings"
 
 	sdk "github.com/cosmos/cosmos-sdk/types"
 	banktypes "github.com/cosmos/cosmos-sdk/x/bank/types"
@@ -10,6 +12,8 @@ import (
 	stakingtypes "github.com/cosmos/cosmos-sdk/x/staking/types"
 	"github.com/ethereum/go-ethereum/common"
 	"github.com/ethereum/go-ethereum/crypto"
+
+	cpcabi "github.com/EscanBE/evermint/v12/x/cpc/abi"
 
 	"verifharness/vh"
 )
@@ -337,6 +341,11 @@ var forgedClasses = []string{
 
 var validClasses = []string{"valid", "valid", "valid", "valid-v-0-1", "valid-malleated-s-flipped-v"}
 
+// The property demands that the recovered signer be the delegator; it does not demand
+// canonical (low-s) signatures or a particular encoding of v. (r, n-s, v^1) recovers the same
+// key as (r, s, v), so such a signature is judged valid here. Both are counted separately in
+// the evidence (signed_message_attempts_by_class).
+
 func (w *world) planSigned() *plan {
 	r := w.r
 	signer := w.freeEOA(false)
@@ -490,6 +499,9 @@ func (w *world) planSigned() *plan {
 				}
 			case "perturbed-amount":
 				signed.Amount = new(big.Int).Add(m.Amount, big.NewInt(int64(1+r.Intn(1000))))
+				if signed.Amount.Cmp(maxU256) > 0 {
+					signed.Amount = new(big.Int).Sub(m.Amount, big.NewInt(int64(1+r.Intn(1000))))
+				}
 			case "perturbed-action":
 				// the victim signed an undelegation; the submitted message delegates (or vice versa)
 				if m.Action == "Delegate" {
@@ -514,16 +526,32 @@ func (w *world) planSigned() *plan {
 			recovered, recOK = recoverSigner(stakingHash(m), s)
 		}
 		if class == "truncated" {
+			full := input
 			cut := 4 + r.Intn(len(input)-4)
 			if r.Chance(1, 8) {
 				cut = r.Intn(4)
 			}
-			input = input[:cut]
-			recOK = false
+			input = full[:cut]
+			stillValid := false
+			if cut >= 4 {
+				// a cut inside the zero padding of the last string leaves a payload that a standard ABI
+				// decoder still reads as the very same message: that is no forgery
+				meth := cpcabi.StakingCpcInfo.ABI.Methods[op.Method]
+				if vals, err := meth.Inputs.Unpack(input[4:]); err == nil {
+					if re, err := meth.Inputs.Pack(vals...); err == nil && bytes.Equal(re, full[4:]) {
+						stillValid = true
+					}
+				}
+			}
+			if stillValid {
+				class = "valid-unpadded-tail"
+			} else {
+				recOK = false
+			}
 		}
 		// the monitor's own judgement, from the property text: delegator == immediate caller == recovered signer
 		accept := recOK && recovered == submittedDelegator && submittedDelegator == caller
-		forged := class != "valid" && class != "valid-v-0-1" && class != "valid-malleated-s-flipped-v"
+		forged := !strings.HasPrefix(class, "valid")
 		if forged == accept {
 			panic(fmt.Sprintf("c11 generator: class %s but independent verdict accept=%v (recovered %s delegator %s caller %s)", class, accept, recovered.Hex(), submittedDelegator.Hex(), caller.Hex()))
 		}
